@@ -1236,5 +1236,54 @@ theorem completeNoParams_not_sufficient :
   have := h (.call 1 [.binary (.field "f") .nil 3]) (by decide) (by decide)
   simp [Expr.wellFormed, wellFormedList] at this
 
+
+/-- a worker that takes its `innerQuery` from a pool without clearing it (NOT the code: seeded
+change c17-20) decodes a statement that depends on the request before: the second payload carries
+only a metric name, the statement it yields still has the first request's limit and grouping keys -/
+theorem pooled_scratch_leaks :
+    (Worker.run .pooled ⟨[]⟩ [.obj [("limit", .int 7), ("groupBy", .arr [.str "host"])],
+        .obj [("metricName", .str "cpu")]]).getLast?
+      = some (.ok { zeroQ with metricName := "cpu", limit := 7, groupBy := ["host"] }) ∧
+    unmarshalQuery (.obj [("metricName", .str "cpu")]) = .ok { zeroQ with metricName := "cpu" } := by
+  constructor <;>
+  simp [Worker.run, Worker.decode, unmarshalQueryInto, unmarshalOptInto, unmarshalQuery, structFields,
+    getBool, getStr, getInt, getRawList, getStruct, getInterval, getStrList, getRaw, arrElems, lookup,
+    strElems, Except.map, bind, Except.bind, pure, Except.pure, unmarshalOpt, unmarshalAll, zeroQ]
+
+/-- so with that policy decode is NOT a function of the payload -/
+theorem pooled_decode_not_function_of_payload :
+    ¬ ∀ (w : Worker) (history : List Json) (p : Json),
+      (Worker.run .pooled w (history ++ [p])).getLast? = some (unmarshalQuery p) := by
+  intro h
+  have h1 := h ⟨[]⟩ [.obj [("limit", .int 7), ("groupBy", .arr [.str "host"])]] (.obj [("metricName", .str "cpu")])
+  rw [show ([Json.obj [("limit", .int 7), ("groupBy", .arr [.str "host"])]] ++ [Json.obj [("metricName", .str "cpu")]])
+    = [.obj [("limit", .int 7), ("groupBy", .arr [.str "host"])], .obj [("metricName", .str "cpu")]] from rfl,
+    pooled_scratch_leaks.1, pooled_scratch_leaks.2] at h1
+  injection h1 with h1
+  injection h1 with h1
+  have := congrArg Query.limit h1
+  simp [zeroQ] at this
+
+/-- `UnmarshalJSON` into a statement value that was used before keeps its `Condition` when the
+payload has none (the code assigns it under `if inner.Condition != nil` only): receivers must be
+fresh, and they are (`tie_decodeTargets`) -/
+theorem reused_receiver_keeps_condition :
+    unmarshalQueryInto { zeroQ with condition := .equals "host" "a" } (.obj [])
+      = .ok { zeroQ with condition := .equals "host" "a" } ∧
+    unmarshalQuery (.obj []) = .ok zeroQ := by
+  constructor <;>
+  simp [unmarshalQueryInto, unmarshalOptInto, unmarshalQuery, structFields,
+    getBool, getStr, getInt, getRawList, getStruct, getInterval, getStrList, getRaw, arrElems, lookup,
+    bind, Except.bind, pure, Except.pure, unmarshalOpt, unmarshalAll, zeroQ]
+
+/-- a duration whose product leaves int64 wraps to a value that is not a whole number of seconds —
+what the guard of `parseDuration` keeps out (`100000000000000y`) -/
+theorem duration_wrap_not_whole_seconds :
+    wrap64 (100000000000000 * oneYear) = -26609163815616512 ∧
+    ¬ (1000 : Int) ∣ wrap64 (100000000000000 * oneYear) ∧
+    parseDuration "100000000000000".toList (some oneYear) = .error .range := by
+  refine ⟨by decide, by decide, ?_⟩
+  exact parseDuration_rejects_overflow _ "T_YEAR" oneYear 100000000000000 (by decide) (by decide) (by decide)
+
 end Neg
 end LinVerif.Props.C17
